@@ -137,8 +137,8 @@ def observe(data, opts, n):
         res['exc'] = f'{type(e).__name__}: {e}'
         problems.append(('wrong-exception', f'raised {res["exc"]}'))
         return res, 0, problems
-    if calls > 2 * n + 2:
-        problems.append(('too-many-calls', f'{calls} _next_char calls for {n} characters (bound 2n+2)'))
+    if calls > 2 * n + 1:
+        problems.append(('too-many-calls', f'{calls} _next_char calls for {n} characters (bound 2n+1, theorem C03_steps)'))
     return res, calls, problems
 
 
@@ -167,7 +167,9 @@ def _exh_worker(strings):
         n = len(s)
         dels = deliveries_small(s)
         a = []
+        acalls = []
         diffs = []
+        cdiffs = []
         probs = []
         maxcalls = 0
         nerr = 0
@@ -178,6 +180,10 @@ def _exh_worker(strings):
                 r, calls, pr = observe(mk(), opts, n)
                 if calls > maxcalls:
                     maxcalls = calls
+                if ref is None:
+                    acalls.append(calls)
+                elif calls != acalls[-1]:
+                    cdiffs.append((oi, name, calls))
                 for key, what in pr:
                     probs.append((key, what, oi, name))
                 if ref is None:
@@ -194,7 +200,7 @@ def _exh_worker(strings):
                 elif tokutil.strip_exc(r) != tokutil.strip_exc(ref):
                     diffs.append((oi, name, tokutil.strip_exc(r)))
                     probs.append(('chunk-dependence', f'delivery {name} gives {tokutil.strip_exc(r)} but the whole string gives {tokutil.strip_exc(ref)}', oi, name))
-        out.append((s, a, diffs, probs, maxcalls, nerr, len(dels)))
+        out.append((s, a, diffs, probs, maxcalls, nerr, len(dels), acalls, cdiffs))
     return out
 
 
@@ -446,7 +452,7 @@ def correspond(ctx, drivers):
         raise model_box['e']
     ctx.extra['exhaustive_wall_s'] = round(time.time() - t0, 1)
     maxratio = 0
-    for (s, a, diffs, probs, maxcalls, nerr, ndel), m in zip(impl, model_box['r']):
+    for (s, a, diffs, probs, maxcalls, nerr, ndel, acalls, cdiffs), m in zip(impl, model_box['r']):
         n = len(s)
         nontriv = bool(SPECIAL & set(s))
         for name_i in range(ndel):
@@ -477,6 +483,15 @@ def correspond(ctx, drivers):
             ci = m['n'] if name == 'str' else (int(name[5:]) if name.startswith('list:') else None)
             if ci is None or mdiff.get((oi, ci)) != r:
                 ctx.disagree({'s': codes(s), 'opts': optset(oi), 'delivery': name}, r, mdiff.get((oi, ci), m['a'][oi]), 'implementation depends on the delivery, TokC does not (or differently)')
+        # number of _next_char calls: the same in model and implementation, for every delivery
+        if acalls != m['calls']:
+            oi = next(i for i in range(128) if acalls[i] != m['calls'][i])
+            ctx.disagree({'s': codes(s), 'opts': optset(oi), 'delivery': 'str'}, acalls[oi], m['calls'][oi], 'number of _next_char calls')
+        mcd = {(d[0], 'str' if d[1] == m['n'] else f'list:{d[1]}'): d[2] for d in m['callsdiff']}
+        icd = {(oi, name): k for (oi, name, k) in cdiffs}
+        if mcd != {k: v for k, v in icd.items() if k[1] == 'str' or k[1].startswith('list:')} or any(k not in mcd for k in icd):
+            key = next(iter(set(mcd.items()) ^ set(icd.items())))[0]
+            ctx.disagree({'s': codes(s), 'opts': optset(key[0]), 'delivery': key[1]}, icd.get(key, acalls[key[0]]), mcd.get(key, m['calls'][key[0]]), 'number of _next_char calls depends on the delivery')
         for (key, what, oi, name) in probs[:5]:
             _witness_from(ctx, s, key, what, optset(oi), name)
     ctx.extra['max_calls_minus_2n'] = maxratio
@@ -530,6 +545,9 @@ def correspond(ctx, drivers):
                 ctx.disagree({'s': codes(s), 'opts': opts, 'delivery': 'str'}, row[0][0], ma, 'TokA vs Tokenizer(str) on a document')
             for (name, chunks, isstr), (r, calls) in zip(dels, row):
                 mc = next(ic)
+                mcalls = mc.pop('calls', None)
+                if mcalls != calls and 'error' not in mc:
+                    ctx.disagree({'s': codes(s), 'opts': opts, 'delivery': name, 'chunks': [codes(c) for c in chunks]}, calls, mcalls, 'number of _next_char calls on a document')
                 ctx.case({'s': codes(s), 'opts': opts, 'delivery': name, 'chunks': len(chunks)}, nontrivial=nontriv, sample_every=7919)
                 ctx.traces_vs_impl += 1
                 ctx.count('delivery ' + name)
@@ -649,7 +667,7 @@ def search(ctx):
         alpha = alphabet16(ctx)
         strings = [''.join(t) for n in range(0, 4) for t in itertools.product(alpha, repeat=n)]
         for b in _pmap(_exh_worker, _batches(strings, 24), 900):
-            for (s, a, diffs, probs, maxcalls, nerr, ndel) in b:
+            for (s, a, diffs, probs, maxcalls, nerr, ndel, acalls, cdiffs) in b:
                 for (key, what, oi, name) in probs[:5]:
                     _witness_from(ctx, s, key, what, optset(oi), name)
         for _ in range(300):
